@@ -435,7 +435,8 @@ class World:
         k = self.k
         return {'step': k.steps, 'time': k.now, 'len': len(pool._pool), 'processes': pool._processes,
                 'target': self.target, 'indices': sorted(getattr(w, 'index', -1) for w in pool._pool),
-                'alive': sum(1 for w in self.workers.values() if not w['proc'].dead), 'state': pool._state}
+                'alive': sum(1 for w in self.workers.values() if not w['proc'].dead), 'state': pool._state,
+                'pids': sorted(w.pid for w in pool._pool if getattr(w, 'pid', None))}
 
     def wait_all_resolved(self, timeout):
         k = self.k
